@@ -73,7 +73,7 @@ def run_ref(prog, init, pattern, library, fuel=30000, variant=None, bool_num=Fal
             'writes': filter_writes(g.writes, library, h), 'globals': user_globals(g, library, h)}
 
 
-def run_real(text, init, pattern, limit=60000, debug=False, parse=None, timeout=20.0, options_extra=None, extra_hosts=None):
+def run_real(text, init, pattern, limit=60000, debug=False, parse=None, timeout=20.0, options_extra=None, extra_hosts=None, reuse=None):
     bare_script, library, rt_err, p_err = real_api()
     parse = parse or bare_script.parse_script
     g = WatchedGlobals(copy.deepcopy(init))
@@ -84,6 +84,10 @@ def run_real(text, init, pattern, limit=60000, debug=False, parse=None, timeout=
     g.armed = True
     logs = []
     options = {'globals': g, 'logFn': logs.append, 'maxStatements': limit, 'debug': debug}
+    if reuse is not None:
+        # the SAME options object as for earlier, other programs of this process (whatever they left in it), with this run's settings
+        reuse.update(options)
+        options = reuse
     if options_extra:
         options.update(options_extra)
         for k in [k for k, v in options_extra.items() if v is DROP]:
